@@ -96,7 +96,7 @@ impl Scenario for C01 {
         ]
     }
     fn components() -> Value {
-        json!({"real": ["deb822_lossless::{lex, lossless::parse, Deb822::read, read_relaxed, from_str, from_str_relaxed, Display}", "debian_control::lossless::{Control::read, read_relaxed, from_file, from_file_relaxed, Changes::read, read_relaxed}", "deb822_lossless::Deb822::{from_file, from_file_relaxed} over real files in the scratch directory (std::fs)", "std::io::Read::read_to_string", "rowan"],
+        json!({"real": ["deb822_lossless::{lex, lossless::parse, Deb822::read, read_relaxed, from_str, from_str_relaxed, Display}", "debian_control::lossless::{Control::read, read_relaxed, from_file, from_file_relaxed, Changes::read, read_relaxed}", "deb822_lossless::Deb822::{from_file, from_file_relaxed}, Changes::from_file[_relaxed], debian_copyright::lossless::Copyright::from_file[_relaxed] over real files in the scratch directory (std::fs)", "std::io::Read::read_to_string", "rowan"],
                "stub": ["byte source behind std::io::Read (SimReader: chunking, EINTR, early EOF, hard errors)", "stored bytes (SimDisk image with injected byte faults)", "getrandom (hasher seeds)"]})
     }
 
@@ -392,8 +392,72 @@ impl Scenario for C01 {
                     }
                 }
             }
+            // the one-paragraph and copyright views over the same file
+            {
+                probe::at("Changes::from_file");
+                let ch = Changes::from_file(&path);
+                let chr = Changes::from_file_relaxed(&path);
+                probe::at("Copyright::from_file");
+                let cp = debian_copyright::lossless::Copyright::from_file(&path);
+                let cpr = debian_copyright::lossless::Copyright::from_file_relaxed(&path);
+                obs.step();
+                match &exp_str {
+                    None => {
+                        if ch.is_ok() || chr.is_ok() || cp.is_ok() || cpr.is_ok() {
+                            return Err(v("io-error-masked", "from_file", &pre3, "file bytes are not valid UTF-8 but Changes/Copyright::from_file[_relaxed] returned Ok".to_string()));
+                        }
+                    }
+                    Some(s) => {
+                        let want_ok = ref_errs.is_empty() && ref_nparas == 1;
+                        if ch.is_ok() != want_ok {
+                            return Err(v("strict-vs-relaxed", "Changes::from_file", &pre3, format!("is_ok={} on file {:?} with {} paragraphs and errors {:?}", ch.is_ok(), s, ref_nparas, ref_errs)));
+                        }
+                        match &chr {
+                            Ok((chv, errs)) => {
+                                let mut want = ref_errs.clone();
+                                if ref_nparas > 1 {
+                                    want.push("multiple paragraphs found".to_string());
+                                }
+                                if errs != &want {
+                                    return Err(v("strict-vs-relaxed", "Changes::from_file_relaxed", &pre3, format!("errors {:?}, expected {:?}", errs, want)));
+                                }
+                                if let Some(p) = &ref_first_para {
+                                    let refp: deb822_lossless::Paragraph = Deb822::from_str_relaxed(p).0.paragraphs().next().unwrap();
+                                    if chv.source() != refp.get("Source") {
+                                        return Err(v("roundtrip-text", "Changes::from_file_relaxed", &pre3, "Source differs from direct parse".to_string()));
+                                    }
+                                }
+                            }
+                            Err(_) => return Err(v("io-error-spurious", "Changes::from_file_relaxed", &pre3, format!("a readable UTF-8 file {:?} could not be loaded", s))),
+                        }
+                        // the copyright view must agree with its own from_str on the same text
+                        use std::str::FromStr;
+                        let direct = debian_copyright::lossless::Copyright::from_str(s);
+                        if direct.is_ok() != cp.is_ok() || direct.as_ref().ok().map(|x| x.to_string()) != cp.as_ref().ok().map(|x| x.to_string()) {
+                            return Err(v("roundtrip-text", "Copyright::from_file", &pre3, format!("from_file and from_str disagree on {:?}", s)));
+                        }
+                        let direct_r = debian_copyright::lossless::Copyright::from_str_relaxed(s);
+                        let same = match (&direct_r, &cpr) {
+                            (Ok((a, ea)), Ok((b, eb))) => a.to_string() == b.to_string() && ea == eb,
+                            (Err(_), Err(_)) => true,
+                            _ => false,
+                        };
+                        if !same {
+                            return Err(v("roundtrip-text", "Copyright::from_file_relaxed", &pre3, format!("from_file_relaxed and from_str_relaxed disagree on {:?}", s)));
+                        }
+                        if let Ok((b, _)) = &cpr {
+                            if &b.to_string() != s {
+                                return Err(v("roundtrip-text", "Copyright::from_file_relaxed", &pre3, format!("file holds {:?}, copyright tree prints {:?}", s, b.to_string())));
+                            }
+                        }
+                    }
+                }
+            }
             let _ = std::fs::remove_file(&path);
             obs.count("fault.file_lost");
+            if Changes::from_file(&path).is_ok() || Changes::from_file_relaxed(&path).is_ok() || debian_copyright::lossless::Copyright::from_file(&path).is_ok() || debian_copyright::lossless::Copyright::from_file_relaxed(&path).is_ok() {
+                return Err(v("io-error-masked", "from_file", "file-lost", "the file does not exist but Changes/Copyright::from_file[_relaxed] returned Ok".to_string()));
+            }
             if Deb822::from_file_relaxed(&path).is_ok() || Deb822::from_file(&path).is_ok() || Control::from_file(&path).is_ok() || Control::from_file_relaxed(&path).is_ok() {
                 return Err(v("io-error-masked", "from_file", "file-lost", "the file does not exist but a from_file entry point returned Ok".to_string()));
             }
